@@ -145,7 +145,7 @@ func CanonBalances(b interpreter.Balances) string {
 			if m[as] == nil {
 				fmt.Fprintf(&sb, "%s=<nil>;", as)
 			} else {
-				fmt.Fprintf(&sb, "%s=%s;", as, m[as].String())
+				fmt.Fprintf(&sb, "%s=%s;", as, safeText(m[as]))
 			}
 		}
 		sb.WriteString("}")
@@ -526,3 +526,17 @@ func (f *Frozen) GetAccountsMetadata(ctx context.Context, q interpreter.Metadata
 }
 
 func (f *Frozen) Snapshot() string { return CanonBalances(f.truth) + "|" + CanonMeta(f.meta) }
+
+// safeText renders a number that code under test may have corrupted (a by-value copy of a
+// big.Int shares its words with the original: writing through the copy leaves the store's
+// own number in a state math/big panics on). The snapshot then differs from the one taken
+// before the run - the mutation is reported - instead of taking the harness down.
+func safeText(v *big.Int) (s string) {
+	defer func() {
+		if r := recover(); r != nil {
+			s = fmt.Sprintf("<unprintable number: %v>", r)
+		}
+	}()
+	return v.String()
+}
+
